@@ -22,7 +22,12 @@ for _f in sorted(glob.glob(os.path.join(_d, 'C*.py'))):
     _id = os.path.basename(_f)[:-3]
     _spec = importlib.util.spec_from_file_location('propdef_' + _id, _f)
     _m = importlib.util.module_from_spec(_spec)
-    _spec.loader.exec_module(_m)
-    PROPS[_id] = _m.PROP
+    try:
+        _spec.loader.exec_module(_m)
+        PROPS[_id] = _m.PROP
+    except Exception as _e:  # a broken definition must not take the others down
+        import sys
+        sys.stderr.write('warning: property definition %s ignored: %r\n' % (_f, _e))
+        continue
     if hasattr(_m, 'NOT_APPLICABLE'):
         NOT_APPLICABLE[_id] = _m.NOT_APPLICABLE
